@@ -33,7 +33,12 @@ def ext_items(max_items=3, critical=False):
         'type': st.sampled_from([0x0002, 0x00fe, 0x1234, 0xfffe]),
         'value': st.binary(max_size=12).map(bytes.hex),
     })
-    return st.lists(item, max_size=max_items)
+    # (also lists around and beyond one hundred items - a list length at which dissectors built on scapy change behaviour)
+    tiny = st.fixed_dictionaries({'flags': st.just(0), 'type': st.sampled_from([0x00fe, 0x1234]),
+                                  'value': st.sampled_from(['', 'aa'])})
+    many = st.integers(99, 130).flatmap(lambda n: st.lists(tiny, min_size=n, max_size=n))
+    short = st.lists(item, max_size=max_items)
+    return st.one_of(short, short, short, short, short, many)
 
 
 def u64():
